@@ -310,8 +310,18 @@ class ImplGen(Gen):
             self_form if self.chance(0.85) or self_form < 2 else 0]
         rhs_kind = self.r.randrange(7)
         other = sx.tid('Y')
+        # bare trait objects as operand types (syntactically valid whatever rustc says about their size): with several
+        # bounds they need parentheses wherever the derived impls put a `&` in front of them
+        dyn2 = sx.tdyn([sx.tb_trait(['A']), sx.tb_trait(['Send'])])
+        dyn1 = sx.tdyn([sx.tb_trait(['A'])])
+        if self.chance(0.08):
+            this = self.pick([dyn2, dyn1, sx.tref(sx.tparen(dyn2)), sx.tparen(dyn2)])
+            feats.add('self-dyn')
         rhs = [None, sx.tid('Self'), other, sx.tref(other), sx.tref(sx.tid('Self')), this_elem,
                sx.tgen('Vec', sx.tid('Self'))][rhs_kind]
+        if self.chance(0.1):
+            rhs = self.pick([dyn2, dyn1, sx.tref(dyn1), sx.tref(sx.tparen(dyn2)), sx.tdyn([sx.tb_trait(['A']), sx.tb_lt('static'), sx.tb_trait(['Sync'])])])
+            feats.add('rhs-dyn')
         feats.add('rhs%d' % rhs_kind)
         feats.add('self%d' % self_form)
         if rhs is None:
